@@ -266,6 +266,37 @@ func (w *provWalker) walkAllocContents(a *ssa.Alloc, depth int) {
 					w.walk(st.Val, depth)
 				}
 			}
+		case *ssa.Slice:
+			// a[:] handed to a call that fills it (binary.PutUint64(key[:], v), copy(a[:], src))
+			for _, u2 := range Users(y) {
+				call, ok := u2.(*ssa.Call)
+				if !ok {
+					continue
+				}
+				if b, isB := call.Common().Value.(*ssa.Builtin); isB {
+					if b.Name() == "copy" && len(call.Common().Args) == 2 && call.Common().Args[0] == ssa.Value(y) {
+						w.walk(call.Common().Args[1], depth)
+					}
+					continue
+				}
+				k := CalleeKey(call.Common())
+				filled := false
+				for i, arg := range call.Common().Args {
+					if arg == ssa.Value(y) && i <= 1 {
+						filled = true
+					}
+				}
+				if !filled {
+					continue
+				}
+				if strings.Contains(k, "encoding/binary") && strings.Contains(k, ".Put") {
+					for _, arg := range call.Common().Args {
+						if arg != ssa.Value(y) {
+							w.walk(arg, depth)
+						}
+					}
+				}
+			}
 		case *ssa.Call:
 			// the address escapes into a call (e.g. json.Unmarshal(&x),
 			// fmt.Fprintf(&builder, ...)): contents depend on the call
